@@ -18,4 +18,4 @@ done
 (cd $W && git reset -q --hard)
 PYTHONPATH=/repo:${VERIF_ROOT:-/verif} /venv/bin/python -c "
 from harness import core; import pkgutil, translate
-core.run_translators([m.name for m in pkgutil.iter_modules(translate.__path__) if m.name not in ('pyexpr','normalize')])" >/dev/null 2>&1
+core.run_translators([m.name for m in pkgutil.iter_modules(translate.__path__) if m.name not in ('pyexpr','normalize','renames')])" >/dev/null 2>&1
